@@ -217,6 +217,7 @@ func checkC04(r *core.Result) {
 				r.Sample(map[string]string{"message": mc.name(), "size": sit.Total.String()})
 			}
 			extensionAsserts(r, ex, u, mc)
+			oneofNilArms(r, ex, u, mc)
 			// Marshal() wrapper
 			okW, why := marshalWrapperOK(mc)
 			r.Ob("M-wrapper", mc.name()+" Marshal() = make(Size()) + MarshalTo", mc.pos(ex, mc.marshal.Pos()), okW, why)
@@ -413,3 +414,86 @@ func extensionAsserts(r *core.Result, ex *e3.Expansion, u *e3.Unit, mc *msgCode)
 }
 
 func shortQual(p *types.Package) string { return p.Name() }
+
+// oneofNilArms (M-oneof-nil): a oneof member is selected by a non-nil interface holding a wrapper pointer, and
+// that pointer may itself be nil (m.F = (*M_X)(nil)): the reference runtimes treat such a member as unset. An arm
+// of the type switch over the oneof that reads through the typed value must therefore be dominated by a nil test
+// of it, otherwise Size()/MarshalTo() dereference a nil pointer.
+func oneofNilArms(r *core.Result, ex *e3.Expansion, u *e3.Unit, mc *msgCode) {
+	info := u.Pkg.TypesInfo
+	for _, fd := range []*ast.FuncDecl{mc.size, mc.marshalTo} {
+		if fd == nil || fd.Body == nil {
+			continue
+		}
+		ast.Inspect(fd.Body, func(n ast.Node) bool {
+			ts, ok := n.(*ast.TypeSwitchStmt)
+			if !ok {
+				return true
+			}
+			for _, cl := range ts.Body.List {
+				cc := cl.(*ast.CaseClause)
+				bound := info.Implicits[cc]
+				if bound == nil || len(cc.List) != 1 {
+					continue
+				}
+				if _, isPtr := bound.Type().(*types.Pointer); !isPtr {
+					continue
+				}
+				// first dereference of the bound value, and whether a nil test that leaves the arm precedes it
+				guarded := false
+				var bad ast.Node
+				for _, st := range cc.Body {
+					if is, ok := st.(*ast.IfStmt); ok && is.Init == nil && is.Else == nil && !guarded {
+						if be, ok := is.Cond.(*ast.BinaryExpr); ok && be.Op == token.EQL {
+							if id, ok := be.X.(*ast.Ident); ok && info.Uses[id] == bound && isNilIdent(be.Y) && len(is.Body.List) == 1 {
+								switch b := is.Body.List[0].(type) {
+								case *ast.BranchStmt:
+									guarded = b.Tok == token.BREAK
+								case *ast.ReturnStmt:
+									guarded = true
+								}
+								if guarded {
+									continue
+								}
+							}
+						}
+						if be, ok := is.Cond.(*ast.BinaryExpr); ok && be.Op == token.NEQ {
+							if id, ok := be.X.(*ast.Ident); ok && info.Uses[id] == bound && isNilIdent(be.Y) {
+								continue // the whole statement runs under typedVal != nil
+							}
+						}
+					}
+					if guarded {
+						break
+					}
+					ast.Inspect(st, func(m ast.Node) bool {
+						if se, ok := m.(*ast.SelectorExpr); ok && bad == nil {
+							if id, ok := se.X.(*ast.Ident); ok && info.Uses[id] == bound {
+								if _, isField := info.Uses[se.Sel].(*types.Var); isField {
+									bad = se
+								}
+							}
+						}
+						return bad == nil
+					})
+					if bad != nil {
+						break
+					}
+				}
+				name := fmt.Sprintf("%s.%s %s arm %s [%s]", u.File.Pkg, mc.goName, fd.Name.Name, types.ExprString(cc.List[0]), u.Combo.Runtime)
+				pos := mc.pos(ex, cc.Pos())
+				if bad != nil {
+					pos = mc.pos(ex, bad.Pos())
+				}
+				r.GroupOb("M-oneof-nil", "oneof arms of "+fd.Name.Name+"() tolerate a nil wrapper pointer", name, pos, bad == nil,
+					"the arm reads a field through the typed wrapper without a nil test: a message whose oneof holds a nil wrapper pointer (m.F = (*W)(nil), which the reference runtime treats as unset) makes "+fd.Name.Name+"() panic with a nil dereference")
+			}
+			return true
+		})
+	}
+}
+
+func isNilIdent(e ast.Expr) bool {
+	id, ok := e.(*ast.Ident)
+	return ok && id.Name == "nil"
+}
